@@ -207,7 +207,7 @@ pub fn install_panic_hook() {
             .unwrap_or_default();
         // a panic that cannot unwind (e.g. an `unsafe` precondition check) aborts the process: say why before it does
         if msg.contains("unsafe precondition") || msg.contains("cannot unwind") || msg.contains("misaligned pointer") || msg.contains("null pointer") {
-            eprintln!("NON-UNWINDING PANIC: {} @ {}", msg, loc);
+            eprintln!("NON-UNWINDING PANIC: {} @ {}", msg.replace('\n', " "), loc);
         }
         LAST_PANIC.with(|p| *p.borrow_mut() = format!("{} @ {}", msg, loc));
     }));
